@@ -73,7 +73,9 @@ def build_binary():
     t0 = time.time()
     p = sh(["cargo", "build", "--offline", "-p", "emulator-2a", "--features", "verif-hooks"],
            cwd=REPO, timeout=3000, check=False,
-           env={"CARGO_TARGET_DIR": os.path.join(WORK, "target-bin")})
+           env={"CARGO_TARGET_DIR": os.path.join(WORK, "target-bin"),
+                # dev profile (overflow checks and debug assertions stay on), lightly optimised: the TUI is drawn ~10^5 times
+                "CARGO_PROFILE_DEV_OPT_LEVEL": "1", "CARGO_PROFILE_DEV_DEBUG": "0"})
     if p.returncode != 0:
         raise ToolError("binary build failed:\n" + p.stderr[-6000:])
     log("[build] binary %.1fs" % (time.time() - t0))
